@@ -6,6 +6,7 @@ what the real constructors did, with as-built deviations for open findings).
 The harness concretises every call class at several exact directions and classifies
 the outcome: valid (and then: unit, real, pointing the same way / proper rotation),
 rejected (ValueError or TypeError), or something else (wrapped garbage, other exception)."""
+import math
 import numpy as np
 
 from .. import core, tlc
@@ -25,6 +26,10 @@ def vec(shape_len, fill, dec, k):
         if not any(d):
             d = (1,) * shape_len
     v = [float(c) * 10.0 ** dec for c in d]
+    if dec in (1, -1):
+        # Constructors!NearUnit: the unit direction scaled by 1 +- 3 ppm
+        nrm = math.sqrt(sum(c * c for c in d))
+        v = [float(c) / nrm * (1.0 + dec * 3e-6) for c in d]
     if fill == "zero":
         v = [0.0] * shape_len
     elif fill == "nan":
@@ -262,6 +267,9 @@ def operations(seed, n):
                        ("rotate_by[inplace]", lambda: (lambda A: (A.rotate_by(q.copy(), inplace=True), np.asarray(A.array))[1])(QuaternionArray(Qs))),
                        ("average", lambda: np.asarray(QuaternionArray(near).average())),
                        ("average[weights]", lambda: np.asarray(QuaternionArray(near).average(weights=r.uniform(0.5, 2, size=N)))),
+                       # arrays of half-turn attitudes only (scalar part exactly 0, as the N-by-3 route builds them)
+                       ("average[half-turns, N-by-3]", lambda: np.asarray(QuaternionArray(near[:, 1:]).average())),
+                       ("average[half-turns, w=0]", lambda: np.asarray(QuaternionArray(np.c_[np.zeros(N), near[:, 1:] * 3.0]).average(weights=np.arange(1.0, N + 1)))),
                        ("random_attitudes", lambda: np.asarray(random_attitudes(N))),
                        ("random_attitudes[1]", lambda: np.asarray(random_attitudes(1))),
                        ("random_attitudes[rotmat]", lambda: np.asarray(random_attitudes(N, representation="rotmat"))),
